@@ -110,6 +110,10 @@ pub(super) fn optimize(
   optimizable_while_loop: &OptimizableWhileLoop,
   counter: &samlang_heap::TempPStrCounter,
 ) -> Option<LoopInductionVariableEliminationResult> {
+  #[cfg(samlang_verif)]
+  if crate::verif::loop_subpass_disabled(crate::verif::LOOP_INDUCTION_VARIABLE_ELIMINATION) {
+    return None;
+  }
   if optimizable_while_loop_uses_induction_var(optimizable_while_loop) {
     return None;
   }
